@@ -8,7 +8,7 @@ import fiddle as fdl
 from fiddle._src import building
 from fiddle._src import config as config_lib
 
-from harness import common, l2, c02
+from harness import common, l2, c02, c08
 from harness.common import Failure, Result, Stream
 
 COQ_TARGETS = ["theories/C05Check.vo", "theories/AnchorsBuild.vo"]
@@ -49,6 +49,32 @@ class Final(Exception):
     raise TypeError("Final cannot be subclassed")
 
 
+class CustomNew(Exception):
+  """Can be subclassed, but an instance of a subclass cannot be created from (exception, message)."""
+
+  def __new__(cls, code):
+    if not isinstance(code, int):
+      raise TypeError("CustomNew(code: int)")
+    self = super().__new__(cls, code)
+    self.code = code
+    return self
+
+  def __init__(self, code):
+    super().__init__(f"code {code}")
+
+
+class Sealed(Exception):
+  """Instances accept no new attributes (the proxy stores the original exception on itself)."""
+
+  def __init__(self, msg):
+    super().__init__(msg)
+
+  def __setattr__(self, name, value):
+    if name.startswith("proxy_"):
+      raise AttributeError(f"Sealed instances are read-only: {name}")
+    super().__setattr__(name, value)
+
+
 def _factory_made():
   """A NEW exception class per call; all of them share one module and one qualified name."""
   class Local(Exception):
@@ -74,7 +100,11 @@ SHAPES = {
     "stop_iteration": lambda: StopIteration("stop"),
     "factory_made_class": lambda: _factory_made()("boom factory-made"),
     "redefined_class": lambda: _redefined()("boom redefined"),
+    "custom_new": lambda: CustomNew(42),
+    "sealed": lambda: Sealed("boom sealed"),
 }
+# shapes whose proxy cannot be created: the original exception must escape as it is
+UNDECORATABLE = ("final", "custom_new", "sealed")
 KNOWN_STOP_ITERATION = "C05/stop-iteration-becomes-runtime-error"
 
 
@@ -167,7 +197,7 @@ PATH_RE = re.compile(r"Fiddle context: failed to construct or call .*? at <root>
                      r"arguments: ", re.S)
 
 
-def check_crash(res, root, enc_before, target, shape, label):
+def check_crash(res, root, enc_before, target, shape, label, path_out=None):
   original = [None]
 
   def factory():
@@ -200,7 +230,7 @@ def check_crash(res, root, enc_before, target, shape, label):
         if s_exc is not None and not s_exc.startswith(s_orig):
           problems.append(f"message {s_exc[:80]!r} does not begin with the original {s_orig[:80]!r}")
         decorated = exc is not orig
-        can_decorate = isinstance(orig, Exception) and shape != "final"
+        can_decorate = isinstance(orig, Exception) and shape not in UNDECORATABLE
         if can_decorate and not decorated:
           problems.append("a decoratable exception escaped without Fiddle context")
         if decorated and s_exc is not None:
@@ -212,6 +242,8 @@ def check_crash(res, root, enc_before, target, shape, label):
               found = eval("ROOT" + m.group(1), {"ROOT": root})  # pylint: disable=eval-used
             except Exception as e:  # pylint: disable=broad-except
               found = e
+            if path_out is not None:
+              path_out.append(c08.parse_printed_path(root, m.group(1)))
             if found is not target:
               problems.append(f"path <root>{m.group(1)} does not lead to the failing Buildable")
               if isinstance(found, AttributeError) and kwarg_named_like_posonly(root, m.group(1)):
@@ -252,15 +284,29 @@ def one_dag(rng, res, intern, stream, root, label, shapes):
   targets = config_nodes(root)
   for target in targets:
     shape = rng.choice(shapes)
-    invoked = check_crash(res, root, enc, target, shape, label)
+    msg_path = []
+    invoked = check_crash(res, root, enc, target, shape, label, msg_path)
     res.evaluations += 1
     res.count("shape:" + shape)
     res.nontrivial({"h": enc.heap_text, "k": enc.ids[id(target)], "s": shape})
     if sigenv is None:
       sigenv = enc.sigenv()
     log_ids = [enc.ids[id(b)] for b in invoked[:-1]]
+    if not msg_path or msg_path[0] is None:
+      # exceptions that cannot be decorated carry no message path: the model's own path is used, so
+      # that the case still compares the outcome and the invocation log
+      res.count("path:none")
+      g_msg_path = (f"(failing_path {sigenv} {enc.heap_text} {enc.root_ref} "
+                    f"{common.g_nat(enc.ids[id(target)])})")
+    else:
+      res.count("path:len=%d" % min(len(msg_path[0]), 6))
+      try:
+        g_msg_path = c08.g_path(enc, msg_path[0])
+      except (TypeError, KeyError):
+        res.count("path:unencodable")
+        continue
     stream.add(f"(mkcase {sigenv} {enc.heap_text} {enc.root_ref} {common.g_nat(enc.ids[id(target)])} "
-               f"{common.g_list([common.g_nat(i) for i in log_ids])})",
+               f"{common.g_list([common.g_nat(i) for i in log_ids])} {g_msg_path})",
                meta={"label": label, "target": enc.ids[id(target)], "root": repr(root)[:800]})
   if targets and len(res.samples) < 3:
     res.samples.append({"root": repr(root)[:500], "crash_points": len(targets)})
